@@ -260,9 +260,29 @@ class ReaderModel:
                 if d.kind == "assign" and d.node is not None:
                     out |= self.provenance(fi, d.node, depth + 1, seen)
                     if isinstance(d.node, ast.Constant):
-                        # control dependence: constant chosen by a test on looked-up values
-                        for t, _pol in dominating_guards(fi.mod, d.stmt, stop=fi.fn):
-                            out |= self.provenance(fi, t, depth + 1, seen)
+                        # control dependence: constant chosen by a test on looked-up values (enclosing ifs only)
+                        n = fi.mod.parent.get(d.stmt)
+                        while n is not None and n is not fi.fn:
+                            if isinstance(n, ast.If):
+                                out |= self.provenance(fi, n.test, depth + 1, seen)
+                            n = fi.mod.parent.get(n)
+                elif d.kind == "unpack" and d.node is not None and isinstance(d.stmt, ast.Assign) and isinstance(d.node, ast.Call) and self.resolve(fi, d.node) is not None and d.index is not None and len(d.index) == 1:
+                    # a, b = helper(node): provenance of the matching element of the returned tuple
+                    callee = self.resolve(fi, d.node)
+                    cfi = self.funcs[callee]
+                    cparams = [x for x in cfi.params if x not in ("cls", "self")]
+                    binds = {}
+                    for i, a in enumerate(d.node.args):
+                        if i < len(cparams):
+                            binds[cparams[i]] = a
+                    for n in walk_no_nested(cfi.fn):
+                        if isinstance(n, ast.Return) and isinstance(n.value, ast.Tuple) and d.index[0] < len(n.value.elts):
+                            for (cp, cpath, kind, nm) in self.provenance(cfi, n.value.elts[d.index[0]]):
+                                if cp in binds:
+                                    for p, path in self.node_path(fi, binds[cp]):
+                                        out.add((p, path + cpath, kind, nm))
+                        elif isinstance(n, ast.Return) and n.value is not None and not isinstance(n.value, ast.Tuple):
+                            out |= self.provenance(fi, d.node, depth + 1, seen)
                 elif d.kind in ("for", "unpack") and d.node is not None:
                     np_ = self.node_path(fi, expr)
                     if not np_:
@@ -303,6 +323,13 @@ class ReaderModel:
         for n in walk_no_nested(fi.fn):
             if isinstance(n, ast.Return) and n.value is not None:
                 out |= self.provenance(fi, n.value)
+                if isinstance(n.value, ast.Constant):
+                    # constant result selected by a test on looked-up values
+                    m = fi.mod.parent.get(n)
+                    while m is not None and m is not fi.fn:
+                        if isinstance(m, ast.If):
+                            out |= self.provenance(fi, m.test)
+                        m = fi.mod.parent.get(m)
         self._stack.discard(("ret", key))
         self._retprov[key] = out
         return out
